@@ -132,7 +132,7 @@ def lib_build(eb, slots):
     c = CachePartition(eb)
     for uri, data in slots:
         c.add_cache_slot(uri, data)
-    out = drive.fresh(_wd[0], ".cache")
+    out = drive.fresh_out(_wd[0], ".cache")
     c.close_and_save_cache(out)
     with open(out, "rb") as fh:
         b = fh.read()
@@ -285,7 +285,7 @@ def file_case(rec, n):
             if kind == "duplicate-uri":
                 slots.append((slots[0][0], b"other"))
             inputs = [f"{u},{mkfile(d)}" for u, d in slots]
-            out = drive.fresh(wd, ".cache")
+            out = drive.fresh_out(wd, ".cache")
             tmp.append(out)
             exc = run("from_payloads", out, eb=eb, input=inputs)
             if kind == "duplicate-uri":
@@ -330,7 +330,7 @@ def file_case(rec, n):
                 return
             files.append(f)
             allslots.extend(slots)
-        out = drive.fresh(wd, ".cache")
+        out = drive.fresh_out(wd, ".cache")
         tmp.append(out)
         exc = run("merge", out, eb=eb, input=files)
         uris = [u for u, _ in allslots]
